@@ -71,8 +71,14 @@ Fixpoint frac_enc (roots : list (Z * Z)) (j : Z) (bitpos : Z) (acc : Z * Z) : Z 
   end.
 Definition lns_roots (r : Z) : list (Z * Z) := mk_roots (Z.to_nat r) (2 * 2^PREC, 2 * 2^PREC).
 (* enclosure of 2^(m/2^r) as rationals *)
+(* Exponents far outside the window that matters (all comparisons are against quantities in (0, 2])
+   are clamped: below the window the enclosure [0, 2^-(PREC+8)] is still valid; above it the pair
+   (2^8, 2^9) is only a lower bound, which is all the acceptance test needs there (it is compared with
+   numbers <= 2). *)
 Definition pow2_enc_r (roots : list (Z * Z)) (r m : Z) : Q * Q :=
   let i := m / 2^r in let j := m mod 2^r in
+  if Z.ltb i (- (PREC + 8)) then (0%Q, pow2Q (- (PREC + 8))) else
+  if Z.ltb 8 i then (pow2Q 8, pow2Q 9) else
   let e := frac_enc roots j (r - 1) (2^PREC, 2^PREC) in
   ((inject_Z (fst e) * pow2Q (i - PREC))%Q, (inject_Z (snd e) * pow2Q (i - PREC))%Q).
 Definition pow2_enc (r m : Z) : Q * Q := pow2_enc_r (lns_roots r) r m.
